@@ -364,3 +364,34 @@ Proof.
   apply (certificate_1d p Hr phi H HH Lip s (phi x) s' x eps A St); try assumption.
   unfold Faithful. apply (SC_faithful phi _ _ HSC). exact F.
 Qed.
+
+(* the best value never increases: the value REPORTED after the last trial obeys the same bound *)
+Lemma iteration_best_le_1d (p : params (T := R)) s z s' x :
+  AllInv r_ops p s -> iteration r_ops p s (Value z) = (s', Done x) -> sZ s' <= sZ s.
+Proof.
+  intros A It.
+  destruct (recalc_all_inv r_ops r_ord_laws p r_zero_lt_half r_half_lt_one s A) as (A1 & _ & _ & _ & _).
+  destruct A1 as (_ & _ & B1 & _ & _).
+  destruct B1 as (ub & xb & zb & Eb & BZ & _ & _).
+  assert (EZ : sZ (recalc_all r_ops p s) = sZ s) by (unfold recalc_all; destruct (recalc s); reflexivity).
+  apply iteration_done_inv in It. cbn zeta in It.
+  destruct It as (pr & u & q2 & before & l & old & after & _ & _ & _ & _ & b & rc & Zs & M1 & rc1 & M2 & rc2 & Hu & _ & _ & ->).
+  cbn [sZ]. unfold upd_opt in Hu. rewrite Eb in Hu. cbn [iz] in Hu. rewrite (updopt_spec r_ops) in Hu. cbn [orb] in Hu.
+  rewrite <- EZ, BZ.
+  destruct (ltb r_ops z zb) eqn:L; injection Hu as _ _ <-.
+  - cbn [ltb r_ops] in L. apply rltb_true in L. lra.
+  - rewrite BZ. lra.
+Qed.
+
+Theorem agp_certificate_1d_final (p : params (T := R)) (phi : R -> R) (H : R) :
+  1 < p_r p -> 0 <= H -> (forall x y, 0 <= x <= 1 -> 0 <= y <= 1 -> Rabs (phi x - phi y) <= H * Rabs (x - y)) ->
+  forall k s s' x eps, (1 <= k)%nat -> PhiRun p phi k s -> step r_ops p s (Value (phi x)) = (s', Done x) ->
+  2 * H <= p_r p * sM s -> ltb r_ops (mind s) eps = false -> ltb r_ops (mind s') eps = true ->
+  forall y, 0 <= y <= 1 -> sZ s' - phi y < p_r p * sM s / 2 * eps.
+Proof.
+  intros Hr HH Lip k s s' x eps Hk Hrun St Hmu Hb Ha y Hy.
+  pose proof (agp_certificate_1d p phi H Hr HH Lip k s s' x eps Hk Hrun St Hmu Hb Ha y Hy) as Q.
+  destruct (phirun_inv p phi k s Hrun) as [[C _]|[A F]]; [lia|].
+  pose proof A as (Ff & _). unfold step in St. rewrite Ff in St.
+  pose proof (iteration_best_le_1d p s (phi x) s' x A St). lra.
+Qed.
